@@ -5,7 +5,8 @@ Parts (each a family of work units):
                identity, every transposition of blocks and of connections, every single and double reversal,
                full reversal, reversed order, reorder(geo=) of the geometry and of a block-order variant
   rename   E2  per base grid: every one-to-one map on a 4-name sub-universe + spare, whole-grid maps
-  seq      E1  breadth-first over {reorder, rename, write+read of the data file} (mc/engine_seq.py)
+  seq      E1  breadth-first over {reorder, rename, write+read of the data file with the mesh inline / in a text MESH
+               file / in the binary MESHA+MESHB pair} (mc/engine_seq.py)
   minc     E2  every composition of 10 tenths into 2..6 parts x 1,2,3 fracture-plane sets x 3 spacings x
                block selections of a 4-block grid (+ boundary / inactive block variants)
   embed    E2  2-block sub-grid into every block of every base grid; two successive embeds (second connection from the
@@ -307,21 +308,31 @@ def eval_rename(grid, pairs, via_t2data=False):
     return v, g, grid
 
 
-def eval_fileroundtrip(grid):
+def eval_fileroundtrip(grid, flavour='inline'):
+    """Write + read of the data file: mesh inline, in a text MESH side file, or in the binary MESHA/MESHB pair."""
     import t2data
     m = model_of(grid)
-    fn = os.path.join(core.scratch(), 'c09.dat')
+    d = core.scratch()
+    fn = os.path.join(d, 'c09.dat')
+    mesh = {'inline': '', 'mesh': os.path.join(d, 'c09.MESH'),
+            'binary': (os.path.join(d, 'c09.MESHA'), os.path.join(d, 'c09.MESHB'))}[flavour]
+    site = 'write+read' if flavour == 'inline' else 'write+read(%s mesh file)' % ('text' if flavour == 'mesh' else 'binary')
     try:
         with quiet(), core.timelimit(60):
             dat = t2data.t2data()
             dat.grid = grid
-            dat.write(fn)
-            g2 = t2data.t2data(fn).grid
+            dat.write(fn, meshfilename=mesh)
+            g2 = t2data.t2data(fn, meshfilename=mesh).grid
     except core.CaseTimeout:
-        return [('C09|write+read|timeout|any', 'data file round trip did not return within 60 s')], None, grid
+        return [('C09|%s|timeout|any' % site, 'data file round trip did not return within 60 s')], None, grid
     except Exception as e:
-        return [('C09|write+read|raises:%s|any' % type(e).__name__, 'data file round trip raised %r' % (e,))], None, grid
-    v, g = judge('write+read', 'any', m, g2, filetol=True)
+        return [('C09|%s|raises:%s|any' % (site, type(e).__name__), 'data file round trip raised %r' % (e,))], None, grid
+    if flavour == 'binary':
+        # the binary files have no way to say "no centre": a block written without one is not compared on it
+        for b in m.blocks:
+            if m.binfo[b]['centre'] is None and b in g2.block:
+                g2.block[b].centre = None
+    v, g = judge(site, 'any', m, g2, filetol=True)
     return v, g, g2
 
 
@@ -505,6 +516,8 @@ def seq_ops(state, depth):
     if len(cn) > 1:
         ops.append(['reorder', None, [cn[1], cn[0]] + cn[2:-1] + ([cn[-1][::-1]] if len(cn) - 1 in rev_ok and len(cn) > 2 else cn[-1:] if len(cn) > 2 else [])])
     ops.append(['write+read'])
+    ops.append(['write+read', 'mesh'])
+    ops.append(['write+read', 'binary'])
     return ops
 
 
@@ -520,7 +533,7 @@ def seq_step(state, op):
     elif k == 't2data_rename':
         viol, gate, g = eval_rename(state.grid, op[1], True)
     elif k == 'write+read':
-        viol, gate, g = eval_fileroundtrip(state.grid)
+        viol, gate, g = eval_fileroundtrip(state.grid, op[1] if len(op) > 1 else 'inline')
     else:
         raise core.HarnessError('unknown op %r' % (op,))
     state.grid = g
@@ -595,6 +608,8 @@ def eval_minc(g0, fr, planes, spacing, sel, fcd=None):
     g = copy.deepcopy(g0)
     m0 = model_of(g0)
     cls = '%d-planes-%s' % (planes, 'all' if sel is None else '%d-selected' % len(sel))
+    if 0. < abs(float(sum(fr)) - 1.) < 1.e-4:
+        cls += '-fractions-sum-nearly-1'
     kw = {}
     if fcd is not None:
         kw['fracture_connection_distance'] = fcd
@@ -694,13 +709,25 @@ def run_minc(chunk, tier, rec):
                     rec.violation(sig, what, {'part': 'minc', 'variant': variant, 'fractions': fr, 'planes': 2,
                                               'spacing': 50., 'blocks': sel})
                 n += 1
-        for scale, fcd in ((100., None), (1., 1.e-10), (0.5, 0.25)):
+        for scale, fcd in ((100., None), (1., 1.e-10), (0.5, 0.25), (0.99999, None), (1.000004, None), (1. - 2.e-7, None)):
             viol = eval_minc(g0, [x * scale for x in fr], 3, [50., 30., 20.], None, fcd)
             rec.case(('minc', 'scaled', fr, scale, fcd), outcome='violation' if viol else 'ok')
             for sig, what in viol:
                 rec.violation(sig, what, {'part': 'minc', 'variant': 'plain', 'fractions': [x * scale for x in fr], 'planes': 3,
                                           'spacing': [50., 30., 20.], 'blocks': None, 'fcd': fcd})
             n += 1
+    if ci == 0:
+        # fractions that sum to 1 only nearly: equal parts rounded to 5 and 6 decimals, as read from a VOL field
+        for k in range(2, 8):
+            for nd in (4, 5, 6):
+                fr = [round(1. / k, nd)] * k
+                for planes in (1, 3):
+                    viol = eval_minc(g0, fr, planes, 50., None)
+                    rec.case(('minc', 'rounded-equal-parts', k, nd, planes), outcome='violation' if viol else 'ok')
+                    for sig, what in viol:
+                        rec.violation(sig, what, {'part': 'minc', 'variant': 'plain', 'fractions': fr, 'planes': planes,
+                                                  'spacing': 50., 'blocks': None})
+                    n += 1
     rec.count('minc_cases', n)
     if vecs:
         rec.sample({'part': 'minc', 'chunk': ci, 'vectors': len(vecs), 'first': vecs[0], 'cases': n})
